@@ -541,7 +541,7 @@ where
                             match &*attr_name {
                                 "class" if !is_component => has_class_binding = true,
                                 "style" if !is_component => has_style_binding = true,
-                                "key" | "on" | "ref" => {}
+                                "key" | "ref" => {}
                                 _ => {
                                     dynamic_props.insert(attr_name.clone());
                                 }
